@@ -715,14 +715,31 @@ func checkCallChain(l *Ledger, pinfo *parserInfo) {
 
 func checkDanglingElse(l *Ledger, pinfo *parserInfo) {
 	rule := "C01/S4-dangling-else"
-	m := pinfo.Models["IfStatement"]
+	// the function that parses the if statement is found by what it does — it tests for the else keyword — not by its name
+	var m *ParseModel
+	for _, name := range pinfo.Names {
+		for _, e := range pinfo.Models[name].G.Events("match") {
+			if strings.Contains(strings.Join(e.Args, ","), "ELSE") {
+				m = pinfo.Models[name]
+			}
+		}
+	}
 	if m == nil {
-		l.Undecide(rule, "parser.IfStatement", "", "not found")
+		l.Undecide(rule, "parser.IfStatement", "", "no parse function tests for the else keyword")
 		return
 	}
 	var problems []string
 	sawElse, sawNoElse := false, false
 	for _, p := range successPaths(m) {
+		var ifNode *nodeInst
+		for _, nd := range p.nodes {
+			if nd.kind == "IfStmt" {
+				ifNode = nd
+			}
+		}
+		if ifNode == nil {
+			continue // another statement form parsed by the same function
+		}
 		// event order: … call(statement)#1 ; match(ELSE) ; [call(statement)#2]
 		idxThen, idxElseTest := -1, -1
 		for i, e := range p.events {
@@ -737,7 +754,7 @@ func checkDanglingElse(l *Ledger, pinfo *parserInfo) {
 			problems = append(problems, "the else test does not follow the then-branch immediately (an enclosing if could claim the else)")
 			continue
 		}
-		n := p.nodes[len(p.nodes)-1]
+		n := ifNode
 		if p.events[idxElseTest].Out == "true" {
 			sawElse = true
 			if n.fields["ElseBranch"] != "statement#2" || n.fields["ThenBranch"] != "statement#1" {
